@@ -1,9 +1,13 @@
-"""Runs `python -m geophires_x <args>` unchanged except that logging.config.fileConfig is a no-op: the stock
-logging.conf opens all_messages_conf.log relative to the package directory, i.e. inside the repository under test,
-and checks never write there.  Used by tools/props/C20.py as  python -B cli_wrapper.py <input> [<output>]."""
+"""Runs `python -m geophires_x <args>` (or, with a first argument --module=<name>, `python -m <name> <args>`) unchanged
+except that logging.config.fileConfig is a no-op: the stock logging.conf opens all_messages_conf.log relative to the
+package directory, i.e. inside the repository under test, and checks never write there.
+Used by tools/props/C20.py as  python -B cli_wrapper.py [--module=hip_ra_x.hip_ra_x] <input> [<output>]."""
 import logging.config
 import runpy
 import sys
 
 logging.config.fileConfig = lambda *a, **k: None
-runpy.run_module('geophires_x', run_name='__main__', alter_sys=True)
+module = 'geophires_x'
+if len(sys.argv) > 1 and sys.argv[1].startswith('--module='):
+    module = sys.argv.pop(1)[len('--module='):]
+runpy.run_module(module, run_name='__main__', alter_sys=True)
